@@ -254,3 +254,61 @@ def write_evidence(ctx, proof, n_viol):
     os.makedirs(d, exist_ok=True)
     with open(os.path.join(d, f"{ctx.prop}.json"), "w") as f:
         json.dump(jsonable(ev), f, indent=1)
+
+
+# ------------------------------------------------------------------------------------------
+# line coverage of the code under test (sys.monitoring, Python 3.12: a line event is disabled after
+# its first hit, so the overhead is negligible).  Reported in the evidence: which lines of the
+# repository's modules the run executed at all.
+# ------------------------------------------------------------------------------------------
+_cov = {"on": False, "hits": set()}
+
+
+def start_coverage():
+    mon = getattr(sys, "monitoring", None)
+    if mon is None or _cov["on"]:
+        return
+    tool = mon.COVERAGE_ID
+    try:
+        mon.use_tool_id(tool, "crverif")
+    except Exception:  # noqa
+        return
+    root = os.path.abspath(REPO) + os.sep
+
+    def on_line(code, line):
+        f = code.co_filename
+        if f.startswith(root) and os.sep + "tests" + os.sep not in f:
+            _cov["hits"].add((os.path.basename(f), line))
+        return mon.DISABLE
+    mon.register_callback(tool, mon.events.LINE, on_line)
+    mon.set_events(tool, mon.events.LINE)
+    _cov["on"] = True
+
+
+def coverage_report():
+    if not _cov["on"]:
+        return None
+    out = {}
+    for name in ("tad.py", "reverse_dfs.py", "conditionalrewards.py", "roberta_generator.py",
+                 "stochastic_game_from_roborta_board.py"):
+        p = os.path.join(REPO, name)
+        if not os.path.exists(p):
+            continue
+        try:
+            code = compile(open(p).read(), p, "exec")
+        except Exception:  # noqa
+            continue
+        lines = set()
+        stack = [code]
+        while stack:
+            c = stack.pop()
+            for _, _, ln in c.co_lines():
+                if ln is not None:
+                    lines.add(ln)
+            stack.extend(k for k in c.co_consts if hasattr(k, "co_lines"))
+        hit = {ln for f, ln in _cov["hits"] if f == name}
+        if hit:
+            missed = sorted(lines - hit)
+            out[name] = {"executable_lines": len(lines), "executed": len(lines & hit),
+                         "not_executed": missed[:60]}
+    return out
